@@ -21,6 +21,8 @@ RULE = (
     "mkdir, rename, remove). Oracle: inputs byte-identical; created paths exactly the sibling _cm.css files plus the report iff "
     "something was adjusted; output parses without error; O-SHEET normal form of output == normal form of input after masking, "
     "in both, the value of the last color declaration of each reported-adjusted rule and of the custom property it references. "
+    "One fixed non-ASCII sheet is additionally run in two CHILD interpreters (UTF-8 locale vs LC_ALL=C with UTF-8 mode and locale "
+    "coercion off): same files, same bytes, same report. "
     "Non-trivial: sheets with >= 3 kinds of carry-through construct and >= 1 adjusted rule; distinct by (files, settings, target)."
 )
 ASSUMPTIONS = [
@@ -178,10 +180,17 @@ def judge(case):
 @st.composite
 def strategy(draw):
     knobs = {"shared_vars": False, "carry": True}
-    shape = draw(st.sampled_from(["file", "file", "dir", "dot", "dir2", "symlink"]))
+    shape = draw(st.sampled_from(["file", "file", "dir", "dot", "dir2", "symlink", "file-named-cm"]))
     s1 = draw(sheets.sheet(knobs=knobs))["css"]
     name1 = draw(st.sampled_from(["s.css", "main.css", "a b.css", "ünï.css", "x_cm_y.css", "theme.min.css"]))
-    if shape == "file":
+    if draw(st.integers(0, 5)) == 0:
+        # a (wrong) @charset rule in a UTF-8 file with non-ASCII text: the tool reads and writes UTF-8 whatever the rule says
+        s1 = '@charset "' + draw(st.sampled_from(["ISO-8859-1", "windows-1252", "koi8-r", "shift_jis", "UTF-16"])) + '";\n' + s1 + '\n.caf\u00e9::after { content: "\u00bb \u00fc\u00f1\u00ef \u2192 \u65e5\u672c" } /* \u00e9\u00e8 */\n'
+    if shape == "file-named-cm":
+        # a single file whose own name ends in _cm.css: the result is still a SIBLING (<name>_cm_cm.css), never the input itself
+        nm = draw(st.sampled_from(["theme_cm.css", "a_cm.css", "site/x_cm.css"]))
+        files, target = {nm: s1}, nm
+    elif shape == "file":
         files, target = {name1: s1}, name1
     elif shape == "symlink":
         # the stylesheet is reached through a symbolic link: the output belongs beside the path that was given
@@ -198,6 +207,34 @@ def strategy(draw):
     return {"files": files, "settings": draw(sheets.cli_settings()), "target": target, "shape": shape}
 
 
+def env_items(shard, nshards):
+    return [{"which": "cli"}] if shard == 0 else []
+
+
+def env_judge(case):
+    """The CLI on a sheet full of non-ASCII text, in two child interpreters (UTF-8 locale vs LC_ALL=C): same files, same bytes."""
+    from vlib import envleg
+
+    ref = envleg.run_child("cli", False)
+    c = envleg.run_child("cli", True)
+    if "__crash__" in ref:
+        raise HarnessError(f"environment leg crashed under the UTF-8 locale: {ref['__crash__']}")
+    if "__crash__" in c:
+        raise Violation("locale-dependent:crash", f"the CLI workload crashes under LC_ALL=C: {c['__crash__'][-300:]}")
+    if ref["exit"] != 0 or ref["output"] is None or "Error processing" in ref["stderr"]:
+        raise Violation("cli-failed", f"CLI run on the non-ASCII sheet failed under the UTF-8 locale: {ref['stderr']!r}")
+    if osh.normal(ref["output"]) == [] or osh.has_error(osh.normal(ref["output"])):
+        raise Violation("output-not-valid-css", f"{ref['output']!r}")
+    if c["exit"] != 0 or "Error processing" in c["stderr"] or c["output"] is None:
+        raise Violation("locale-dependent:error-or-no-output", f"under LC_ALL=C (preferred encoding {c.get('preferred_encoding')}) the same run gives exit {c['exit']}, stderr {c['stderr']!r}, output {'missing' if c['output'] is None else 'present'}")
+    if c["files"] != ref["files"] or c["counts"] != ref["counts"] or c["cards"] != ref["cards"]:
+        raise Violation("locale-dependent:output-differs", f"files / counts / report differ between locales: {c['files']} vs {ref['files']}; {c['counts']} vs {ref['counts']}")
+    return {"nt": ("env", "cli", c.get("preferred_encoding")), "cls": ["c-locale-child"], "sample": {"env": "LC_ALL=C PYTHONUTF8=0 PYTHONCOERCECLOCALE=0", "sheet": envleg.SHEET}}
+
+
 def subchecks(tier):
     q = tier == "quick"
-    return [Hyp("inputs-untouched-structure-preserved", strategy, judge, examples=1600 if q else 48000)]
+    from vlib.runner import Enum
+
+    return [Hyp("inputs-untouched-structure-preserved", strategy, judge, examples=1600 if q else 48000),
+            Enum("c-locale-fresh-interpreter", judge=env_judge, items=env_items, shards=1)]
